@@ -242,6 +242,8 @@ def one_table(ctx, world, tno, forced=None):
                 else:
                     try:
                         tt = tree_of(ad_loaded_type(load_tn, type_changed, ad))
+                        if tt is None:
+                            raise TypeError("no tree")
                         toks = cc.to_tokens(local_world(world, ir), tt, d)
                         impl.append("val " + " ".join(toks))
                         # the iteration order of Python's sets/dicts is the
@@ -276,7 +278,8 @@ def one_table(ctx, world, tno, forced=None):
             elif act == "retype" and kind == "known" and not type_changed:
                 # a compatible re-typing: wrap-free rename among same-width
                 # integer names or identical type; also an unparseable name
-                new = retype_name(rng, tree_of(cur_tn))
+                ct = tree_of(cur_tn)
+                new = retype_name(rng, ct) if ct is not None else None
                 if new is None or new == ad.type_name:
                     continue
                 ad.type_name = new
@@ -338,6 +341,10 @@ def one_table(ctx, world, tno, forced=None):
                 # a known finding lets the run continue
                 if ctx.violations:
                     return False
+        elif kind == "known" and exc is None and tree_of(stn) is None:
+            return fail({"kind": "saved-under-malformed-name"},
+                        "table re-typed to the malformed name %r was saved "
+                        "(the loaded bytes cannot be its encoding)" % stn)
         elif kind == "known" and exc is None:
             # saved bytes must be the encoding of the current value under
             # the current name: decode them independently and compare
@@ -385,6 +392,9 @@ def ad_loaded_type(load_tn, type_changed, ad):
 
 def tree_of(name):
     import codec_streams
+    import props.C15 as c15
+    if c15.ref_parse(name) is None:
+        return None
     return codec_streams.tree_of_name(name)
 
 
